@@ -1,3 +1,5 @@
+import gfapy
+
 class ToGFA2:
 
   @property
@@ -23,14 +25,23 @@ class ToGFA2:
       from_l = self._lastpos_of("from_segment")
       return [from_l - self.overlap.length_on_reference(), from_l]
     else:
-      return [0, self.overlap.length_on_reference()]
+      return [0, self._lastpos_if_last("from_segment",
+                                       self.overlap.length_on_reference())]
 
   @property
   def to_coords(self):
     """GFA2 positions of the alignment on the **to** segment."""
     self._check_overlap()
     if self.to_orient == "+":
-      return [0, self.overlap.length_on_query()]
+      return [0, self._lastpos_if_last("to_segment",
+                                       self.overlap.length_on_query())]
     else:
       to_l = self._lastpos_of("to_segment")
       return [to_l - self.overlap.length_on_query(), to_l]
+
+  def _lastpos_if_last(self, field, pos):
+    # (a position which is the end of the segment is marked as such)
+    line = getattr(self, field)
+    if isinstance(line, gfapy.Line) and line.length == pos:
+      return gfapy.LastPos(pos)
+    return pos
